@@ -136,29 +136,31 @@ Fixpoint ceval (e : cexpr) : N :=
   | EBin op l r => apply op (ceval l) (ceval r)
   end.
 
-Definition prec (op : binop) : nat :=
-  match op with BOr => 1 | BAnd => 2 | BEq | BNe => 3 | _ => 4 end.
-Definition eprec (e : cexpr) : nat :=
-  match e with EBin op _ _ => prec op | ENot _ => 5 | _ => 6 end.
+(* binding strength: rank 1 binds tightest among the binary operators; ! and atoms have rank 0 *)
+Definition rank (op : binop) : nat :=
+  match op with BOr => 4 | BAnd => 3 | BEq | BNe => 2 | _ => 1 end.
+Definition erank (e : cexpr) : nat :=
+  match e with EBin op _ _ => rank op | _ => 0 end.
 Definition optok (op : binop) : ctok :=
   match op with
   | BOr => KOr | BAnd => KAnd | BEq => KEq | BNe => KNe | BLt => KLt | BLe => KLe | BGt => KGt | BGe => KGe
   end.
 
-(* print with the minimal parentheses for left-associative operators *)
+(* print with the minimal parentheses for left-associative operators: a sub-expression is
+   parenthesised exactly when it binds less tightly than its context allows *)
 Fixpoint raw (e : cexpr) : list ctok :=
-  let pr := fun (l : nat) (x : cexpr) =>
-    if Nat.leb l (eprec x) then raw x else KLP :: raw x ++ [KRP] in
+  let pr := fun (j : nat) (x : cexpr) =>
+    if Nat.leb (erank x) j then raw x else KLP :: raw x ++ [KRP] in
   match e with
   | ENum n => [KNum n]
   | ETrue => [KTrue]
   | EFalse => [KFalse]
   | EId s => [KId s]
-  | ENot x => KNot :: pr 5%nat x
-  | EBin op l r => pr (prec op) l ++ optok op :: pr (S (prec op)) r
+  | ENot x => KNot :: pr 0%nat x
+  | EBin op l r => pr (rank op) l ++ optok op :: pr (Nat.pred (rank op)) r
   end.
-Definition pr (l : nat) (x : cexpr) : list ctok :=
-  if Nat.leb l (eprec x) then raw x else KLP :: raw x ++ [KRP].
+Definition pr (j : nat) (x : cexpr) : list ctok :=
+  if Nat.leb (erank x) j then raw x else KLP :: raw x ++ [KRP].
 
 (* ====================== macro environment as seen by conditions ====================== *)
 
